@@ -54,3 +54,41 @@ Proof.
   intros F. unfold deliver. destruct (handler e t (start c plan)) as [[a| | |] h] eqn:E; cbn; try reflexivity.
   apply F in E. exact E.
 Qed.
+
+(* scalar slots, directly: which transaction types can change which slot *)
+Definition touches_owner (t : tx) : bool := match t with AcceptOwner _ => true | _ => false end.
+Definition touches_pending (t : tx) : bool := match t with AcceptOwner _ | UpdateOwner _ _ => true | _ => false end.
+Definition touches_attmgr (t : tx) : bool := match t with UpdateAttesterManager _ _ => true | _ => false end.
+Definition touches_pauser (t : tx) : bool := match t with UpdatePauser _ _ => true | _ => false end.
+Definition touches_tokctl (t : tx) : bool := match t with UpdateTokenController _ _ => true | _ => false end.
+Definition touches_bm (t : tx) : bool := match t with PauseBurningAndMinting _ | UnpauseBurningAndMinting _ => true | _ => false end.
+Definition touches_sr (t : tx) : bool :=
+  match t with PauseSendingAndReceivingMessages _ | UnpauseSendingAndReceivingMessages _ => true | _ => false end.
+Definition touches_max_body (t : tx) : bool := match t with UpdateMaxMessageBodySize _ _ => true | _ => false end.
+Definition touches_next_nonce (t : tx) : bool :=
+  match t with SendMessage _ _ _ _ | SendMessageWithCaller _ _ _ _ _ | DepositForBurn _ _ _ _ _ | DepositForBurnWithCaller _ _ _ _ _ _ => true
+  | _ => false end.
+Definition touches_threshold (t : tx) : bool := match t with UpdateSignatureThreshold _ _ => true | _ => false end.
+
+Lemma frame_owner : forall e t h r h', touches_owner t = false -> handler e t h = (r, h') -> owner (h_st h) = owner (h_st h').
+Proof. frame_all owner. Qed.
+Lemma frame_pending : forall e t h r h', touches_pending t = false -> handler e t h = (r, h') -> pending_owner (h_st h) = pending_owner (h_st h').
+Proof. frame_all pending_owner. Qed.
+Lemma frame_attmgr : forall e t h r h', touches_attmgr t = false -> handler e t h = (r, h') -> attester_manager (h_st h) = attester_manager (h_st h').
+Proof. frame_all attester_manager. Qed.
+Lemma frame_pauser : forall e t h r h', touches_pauser t = false -> handler e t h = (r, h') -> pauser (h_st h) = pauser (h_st h').
+Proof. frame_all pauser. Qed.
+Lemma frame_tokctl : forall e t h r h', touches_tokctl t = false -> handler e t h = (r, h') -> token_controller (h_st h) = token_controller (h_st h').
+Proof. frame_all token_controller. Qed.
+Lemma frame_bm : forall e t h r h', touches_bm t = false -> handler e t h = (r, h') -> bm_paused (h_st h) = bm_paused (h_st h').
+Proof. frame_all bm_paused. Qed.
+Lemma frame_sr : forall e t h r h', touches_sr t = false -> handler e t h = (r, h') -> sr_paused (h_st h) = sr_paused (h_st h').
+Proof. frame_all sr_paused. Qed.
+Lemma frame_max_body : forall e t h r h', touches_max_body t = false -> handler e t h = (r, h') -> max_body (h_st h) = max_body (h_st h').
+Proof. frame_all max_body. Qed.
+Lemma frame_next_nonce : forall e t h r h', touches_next_nonce t = false -> handler e t h = (r, h') -> next_nonce (h_st h) = next_nonce (h_st h').
+Proof. frame_all next_nonce. Qed.
+Lemma frame_threshold : forall e t h r h', touches_threshold t = false -> handler e t h = (r, h') -> threshold (h_st h) = threshold (h_st h').
+Proof. frame_all threshold. Qed.
+
+(* the ledger is touched only through dependency calls, which only the three money flows make *)
